@@ -23,7 +23,10 @@ TStep == Running /\ Step /\ UNCHANGED <<tid, fin>>
 TVerdict ==
   /\ ~fin /\ ~Running
   /\ fin' = TRUE
-  /\ IF apc = "reject"
+  /\ IF Traces[tid].want # Traces[tid].linelen
+     \* C_line_length governs the C, C++, Python and Lua files, F_line_length the Fortran files (docs/reference.rst)
+     THEN PrintT(<<"VERDICT", tid, "REJECT", "the emitter wraps at another language's line length", Traces[tid].linelen, Traces[tid].want>>)
+     ELSE IF apc = "reject"
      THEN PrintT(<<"VERDICT", tid, "REJECT", why, ak>>)
      ELSE IF apc = "excluded" THEN PrintT(<<"VERDICT", tid, "EXCLUDED", "outside the helper's documented domain">>)
      ELSE PrintT(<<"VERDICT", tid, "ACCEPT",
